@@ -454,6 +454,19 @@ class C09(core.Check):
             detail.update(map_doc=a, map_defs=b, map_ltinput=cc)
             return dict(ok=False, nt=True, key='routes-differ:map:' + ('defs' if a != b else 'ltinput'), cnt=cnt,
                         obs=None, detail=detail)
+        if case['s'] % 4 == 1:
+            # the definitions in the middle of the document, behind a sentence with a footnote: nothing collected
+            # before may be lost, whatever the route
+            cnt['definitions_mid_document'] = 1
+            prefix = 'u0az \\footnote{u0bz u0cz} u0dz\n'
+            runs = [tex.run(prefix + D + B, **opts), tex.run(prefix + B, defs=D, **opts), tex.run(prefix + pre + B, **opts)]
+            seqs = []
+            for ((tt, pp), ee), sh in zip(runs, (len(D), 0, len(pre))):
+                seqs.append([(ch, q if q <= len(prefix) else q - sh) for ch, q in zip(tt, pp) if not ch.isspace()])
+            if any(r[1] for r in runs) or not (seqs[0] == seqs[1] == seqs[2]) or 'u0bz' not in runs[2][0][0]:
+                detail.update(mid_document=[r[0][0] for r in runs], stderr=[r[1] for r in runs])
+                which = 'defs' if seqs[0] != seqs[1] else 'ltinput'
+                return dict(ok=False, nt=True, key='routes-differ:mid-document:' + which, cnt=cnt, obs=None, detail=detail)
         if case['s'] % 3 == 0:
             # the same definitions file read twice (and once more after the first use) changes nothing
             cnt['ltinput_twice'] = 1
@@ -465,7 +478,7 @@ class C09(core.Check):
                     obs=dict(D=tex.short(D, 200), B=tex.short(B, 150), plain=tex.short(t2, 120)))
 
     def quotas(self, tier):
-        return {'subst_definer': 300, 'subst_optional_given': 300, 'subst_optional_default': 200, 'subst_cases': 3000, 'subst_inner': 500, 'subst_arg': 500, 'subst_arg_ends_with_control_word': 500, 'routes': 2000, 'inline': 500, 'ltinput_twice': 300, 'calls': 5000, 'unknown_uses': 100, 'default_used': 300,
+        return {'definitions_mid_document': 300, 'subst_definer': 300, 'subst_optional_given': 300, 'subst_optional_default': 200, 'subst_cases': 3000, 'subst_inner': 500, 'subst_arg': 500, 'subst_arg_ends_with_control_word': 500, 'routes': 2000, 'inline': 500, 'ltinput_twice': 300, 'calls': 5000, 'unknown_uses': 100, 'default_used': 300,
                 'nested_calls': 500}
 
 
